@@ -1,4 +1,5 @@
 import GitSizer.Proofs.Parsers
+import GitSizer.Proofs.GenStrs
 import GitSizer.Proofs.ParsersExact
 /-! # C16 — Object parsers are lossless and total
     Theorems about the statement-by-statement models of git/tree.go, git/obj_head_iter.go,
@@ -119,5 +120,19 @@ theorem F6_witness :
     commitStreamOld 100 (Spec.serLines ({ demoCommit with extra := demoCommit.extra.take 2 } : Spec.CommitObj).lines) [] none =
       .ok ([List.replicate 20 2, List.replicate 20 3, List.replicate 20 9], some (List.replicate 20 1)) := by
   decide +kernel
+
+
+/-- **the listing parsers, REGENERATED.** `ParseBatchHeader` (git/batch_header.go) and
+    `ParseReference` (git/reference.go) as translated from the source on this run — `strings.Split`,
+    every `words[i]`, `header[len(header)-1]`, `header[:len(header)-1]` as CHECKED operations, the
+    `(value, error)` returns of `NewOID` / `strconv.ParseUint` as the error monad — have exactly the
+    models' outcome: the same (oid, type, size[, refname]) or an error in the same cases, and never a
+    panic. Together with `batch_header_total` / `reference_total` this is totality of the source. -/
+theorem listing_parsers_source (spec line : Bytes) :
+    Res.sim (fun t (h : Parsers.BatchHeader) => t = (h.oid, h.objType, h.size))
+      (Gen.Strs.ParseBatchHeader spec line) (Parsers.parseBatchHeader line) ∧
+    Res.sim (fun t (r : Parsers.Reference) => t = (r.refname, r.objType, r.size, r.oid))
+      (Gen.Strs.ParseReference line) (Parsers.parseReference line) :=
+  ⟨parseBatchHeader_regenerated spec line, parseReference_regenerated line⟩
 
 end GitSizer.C16
